@@ -38,6 +38,10 @@ claim('C11', 'Decided by a complete finite case split for the running interprete
       'real class lattice for every subclass of ast.stmt, plus unconditional structural descent of every compound handler; the placement matrix and non-function '
       'inputs are executed (bounded).', 'the structural induction over the tree is stated, not mechanised; dispatch must remain an isinstance chain (otherwise the check '
       'reports the structure obligation); ast.parse/inspect.getsource trusted', 'finite case split over every ast.stmt class (E3) + placement matrix executed', '5.C11')
+claim('C12', 'Mixed: functional postconditions of the order-sensitive leaf functions (sorted results, exact generated names) are proved with every set/dict loop visiting '
+      'elements in arbitrary order, which makes them hash-seed independent for all inputs; the cross-process claim for the whole pipeline is compared over several '
+      'PYTHONHASHSEED values in subprocesses on enumerated and random inputs (bounded).', TB + '; sorted() anchors inside tier-B functions are covered only by the bounded comparison',
+      PROOF_PLUS_BOUNDED + ' across hash seeds', '5.C12')
 claim('C13', 'Mixed, mostly proved: find_head, find_headers_and_entries (top-level graphs), find_exiting_and_exits, is_reachable_dfs, exclude_blocks, '
       'jump_targets, is_exiting are proved equal to their definitions for all graphs (incl. external targets, duplicates, back edges); compute_scc/scc, '
       '_doms/_post_doms/_find_dominators_internal and _imm_doms are compared with brute-force path-based definitions on all small digraphs (bounded).',
